@@ -266,6 +266,10 @@ fn module_plain(e: &EnumSpec, cfg: Config, form: usize) -> ModuleSrc {
             if o.derives.iter().any(|d| d.contains("strum_x::") || d.starts_with("strum::")) {
                 // (first or last among the pass-through attributes)
                 if form % 2 == 0 {
+                    // (followed by at least one other, separately written strum pass-through)
+                    if !o.passthrough.iter().any(|p| p.starts_with("strum(")) {
+                        o.passthrough.push("strum(prefix = \"d\")".to_string());
+                    }
                     o.passthrough.insert(0, format!("strum(crate = \"{}\")", path));
                 } else {
                     o.passthrough.push(format!("strum(crate = \"{}\")", path));
